@@ -251,10 +251,16 @@ def check_sharded(ctx: Ctx, res: Result):
             rows, cols = rng.choice([(8, 4), (6, 3), (9, 2), (4, 4)])
             dtype = rng.choice([torch.float32, torch.int64, torch.int16])
             G = torch.arange(rows * cols).reshape(rows, cols).to(dtype)
-            cuts = sorted(rng.sample(range(1, rows), rng.randint(1, min(3, rows - 1))))
-            bounds = [0] + cuts + [rows]
-            boxes = [([a, 0], [b - a, cols]) for a, b in zip(bounds, bounds[1:])]
-            sharded = C08_make_sharded(boxes, [rows, cols], [G[o[0]:o[0] + z[0]].clone() for o, z in boxes])
+            if cols >= 2 and rng.random() < 0.5:
+                # an irregular partition: a left column split in two above one another, next to a full-height right block
+                # (the shard reaching the far corner is NOT the last one in offset order)
+                r1, c1 = rng.randint(1, rows - 1), rng.randint(1, cols - 1)
+                boxes = [([0, 0], [r1, c1]), ([r1, 0], [rows - r1, c1]), ([0, c1], [rows, cols - c1])]
+            else:
+                cuts = sorted(rng.sample(range(1, rows), rng.randint(1, min(3, rows - 1))))
+                bounds = [0] + cuts + [rows]
+                boxes = [([a, 0], [b - a, cols]) for a, b in zip(bounds, bounds[1:])]
+            sharded = C08_make_sharded(boxes, [rows, cols], [G[o[0]:o[0] + z[0], o[1]:o[1] + z[1]].clone() for o, z in boxes])
             knobs = {"chunk": None, "slab": rng.choice([None, 64]), "nobatch": rng.random() < 0.3, "budget": 100000000, "conc": rng.choice([1, 16])}
             maxshard = rng.choice([None, G.element_size() * cols, G.element_size() * cols * 2])
             root = ctx.scratch("c18s")
